@@ -464,6 +464,7 @@ package server
 //@   modifies LockManager.refCount, LockManagerWaitQueue.*, LockManagerRingQueue.*, LockManagerPriorityRingQueue.*, LockManagerPriorityRingQueueNode.*, LockQueue.*, Lock.aofTime, Lock.command, Lock.data, Lock.isAof, Lock.manager, Lock.protocol, Lock.refCount, E_LJPserver_Lock, E_Pserver_Lock, E_Pserver_LockManagerPriorityRingQueueNode, E_int32
 
 //@ func (*LockDB).Lock
+//@   at call ProcessLockResultCommand assert C04.lock.wake-flag: implies(arg2 == protocol.RESULT_SUCCED && calls(doLock) == 1 && calls(checkLessLockVersion) == 0 && calls(UpdateLockedLock) == 0 && calls(PushLockAof) == 0, requireWakeup == lockManager.waited)
 //@   at call PriorityMutex.Unlock assert C17.ref.requeued: implies(calls(RemoveLongExpried) == 1 && calls(AddExpried) + calls(AddMillisecondExpried) == 1 && calls(UpdateLockedLock) == 1, currentLock.refCount == atsection(currentLock.refCount) || currentLock.refCount == u8(atsection(currentLock.refCount) + 1) || (command.TimeoutFlag&0x1000 != 0 && currentLock.refCount == u8(atsection(currentLock.refCount) + 2)))
 //@   at call UpdateLockedLock assert C02.reenter.bound: implies(lockManager.locked == u32(atsection(lockManager.locked) + 1), currentLock.locked == u8(atsection(currentLock.locked) + 1) && atsection(currentLock.locked) <= command.Rcount && atsection(currentLock.locked) < 0xff && command.TimeoutFlag&0x0010 == 0)
 //@   at call FreeLockCommand assert C19.relock.frees-replaced: implies(calls(UpdateLockedLock) == 1, arg1 == atsection(currentLock.command) && currentLock.command == command)
